@@ -61,6 +61,12 @@ add("C08", True, "E1-bfs", "model_checking",
     "Trusted: the reference model in harness/src/c08.rs; cross-writer reception order is not assumed (every merge respecting per-writer order is a candidate; a result must be explained by one); completeness judged against the observed cache content.",
     "5.8")
 
+add("C09", True, "E2-enum", "model_checking",
+    "bounded-exhaustive enumeration of cache contents x reader kinds x access forms on real readers, each case under a hang watchdog in subprocess shards",
+    "All sequences of length 1..5 (thorough 6) over {good value of writer 0, good value of writer 1, dispose by key hash, and each of four unintelligible kinds (undecodable payload, unknown representation, dispose with unknown key hash, dispose with undecodable key) from either writer} are placed in the real TopicCache of a real reader, for reliable/best-effort x with_key/no_key, and then one access form (take-all, take_next_sample, into_iterator, SimpleDataReader stream poll, DataReader sample stream poll) is repeated until it reports nothing more. Cases run in 16 subprocess shards; a case that does not return within 4 s is killed and reported as a hang. Oracle: every call returns; errors reported <= unintelligible changes; every intelligible change of every writer is delivered exactly once; nothing unintelligible is delivered; the access reaches 'nothing more' within changes+3 calls.",
+    "Trusted: changes injected as Reader::make_cache_change does; a shard stops after 6 hangs/crashes (then exhaustive=false is reported).",
+    "5.9")
+
 NOT_YET = {}
 
 def main():
